@@ -394,6 +394,23 @@ def check_case(ctx, case, progs=None, nprog=3, seeds=True):
                 ctx.notes["derived_program_refused_at_build"] = ctx.notes.get("derived_program_refused_at_build", 0) + 1
                 ctx.extra.setdefault("derived_program_refusal_sample", {"dist": case["dist"], "prog": prog, "error": repr(e)[:160]})
                 break
+            except Exception as e:
+                # any other exception while building (e.g. an assertion inside an operation): a defect of that operation when
+                # the same program cannot be built over from_array(r0) either — recorded, not reported here
+                try:
+                    with dask.config.set({"array.optimize-graph": opt}):
+                        run_prog(prog, da.from_array(r0, chunks=x.chunks), True)
+                    builds = True
+                except Exception:
+                    builds = False
+                if builds:
+                    fail("random:derived-raises", "a program derived from a random array cannot be built (it can over from_array of the same values)",
+                         prog=prog, optimize=opt, error=repr(e)[:300])
+                else:
+                    ctx.notes["generic_program_defects"] = ctx.notes.get("generic_program_defects", 0) + 1
+                    if len(ctx.extra.setdefault("generic_program_defect_samples", [])) < 3:
+                        ctx.extra["generic_program_defect_samples"].append({"prog": prog, "optimize": opt, "error": repr(e)[:200]})
+                break
             try:
                 with dask.config.set({"array.optimize-graph": opt}):
                     got = y.compute(**SYNC)
@@ -654,7 +671,10 @@ def search(ctx):
             ctx.fail("random:hang", case, "building / optimising / computing a random array and its derived programs does not finish within 90 s")
             break
         except Exception as e:
-            ctx.fail("random:raises", dict(case, error=repr(e)[:300]), "recomputing / rebuilding / deriving from a seeded random array raises")
+            import traceback
+
+            ctx.fail("random:raises", dict(case, error=repr(e)[:300], traceback=traceback.format_exc()[-1200:]),
+                     "recomputing / rebuilding / deriving from a seeded random array raises")
 
 
 def targeted(ctx):
